@@ -12,7 +12,7 @@ from .. import gens
 from ..harness import digest
 
 MANIFEST = {
-    'text': 'Held on every call executed: emd.cycles.get_cycle_vector is run on EVERY sequence of length 2..6 (quick) / 2..8 (thorough) over a 5-value phase alphabet x phase_step in {pi, 1.5pi, 1.9pi} (and 0 for length <= 5) x return_good in {False, True} (so every placement of wraps including the first and last sample), on stacked multi-column inputs, and on seeded long synthetic phases with variable, noisy and occasionally reversing frequency; the all-cycles labelling must equal the wrap-delimited partition exactly and good-cycle labelling must never raise and must consist of whole segments numbered consecutively. Exhaustive at the stated bound, sampling beyond.',
+    'text': 'Held on every call executed: emd.cycles.get_cycle_vector is run on EVERY sequence of length 2..6 (quick) / 2..8 (thorough) over a 5-value phase alphabet x phase_step in {pi, 1.5pi, 1.9pi} (and 0 for length <= 5) x return_good in {False, True} (so every placement of wraps including the first and last sample), on stacked multi-column inputs, and on seeded long synthetic phases with variable, noisy and occasionally reversing frequency; the all-cycles labelling must equal the wrap-delimited partition exactly and good-cycle labelling must never raise and must consist of whole segments numbered consecutively. Exhaustive at the stated bound, sampling beyond. Schedules: the same deterministic calls made from 4-5 threads of one interpreter at once (thread switch every 1-10 microseconds) must reproduce the results obtained alone. A quarter of the shards run in a session that turns Deprecation/Future/UserWarnings into errors.',
     'note': 'Trusted: numpy. Which segments count as good is C13\'s business; here only the partition structure is judged for return_good=True.',
     'technique': 'reference-partition oracle on the real get_cycle_vector, exhaustive small-scope enumeration + seeded random',
 }
